@@ -297,7 +297,7 @@ Proof.
   assert (H5 : inval 5 = true) by (apply Hall; cbn; tauto).
   assert (H6 : inval 6 = true) by (apply Hall; cbn; tauto).
   assert (H7 : inval 7 = true) by (apply Hall; cbn; tauto).
-  destruct o as [c k v|c k v|c k|kvs|ks| |c|c|c|c k|c q k|q k m]; cbn [step fst].
+  destruct o as [c k v|c k v|c k|kvs|ks| |c|c|c|c k|c q k|q k m|c q k b strat]; cbn [step fst].
   - destruct v; [exact Hs|]. cbn [fst]. apply inv_put; [|exact Hs]. unfold M_STORE, M_COLL_STORE. destruct (N.eqb c 0); assumption.
   - destruct v; [exact Hs|]. cbn [fst]. apply inv_put; [|exact Hs]. unfold M_STORE_META, M_COLL_STORE. destruct (N.eqb c 0); assumption.
   - destruct (aget (data (cget s c)) k); [|exact Hs]. cbn [fst]. apply inv_aset; [exact Hs|].
@@ -316,6 +316,7 @@ Proof.
     intros snap. rewrite drop_cache_none; [discriminate|exact H7].
   - destruct (dims_consistent (data (cget s c))) eqn:Ed; [|exact Hs]. cbn [fst]. apply inv_aset; [exact Hs|].
     cbn [cache data]. intros snap [= <-]. split; [reflexivity|exact Ed].
+  - exact Hs.
   - exact Hs.
   - exact Hs.
   - exact Hs.
@@ -384,4 +385,237 @@ Proof.
   intros kv [<-|Hin]; [exact Ed|]. cbn in Hdims. rewrite forallb_forall in Hdims.
   eapply same_dim_trans; [apply Hdims; exact Hin|exact Ed].
 Qed.
+
+(* filtered search with the fallback and the dimension guard: an exact search over the vectors that
+   match the filter, or (valid cached index) candidates from the index restricted to them *)
+Theorem filtered_path_sound s t c q k b strat : CacheInv s ->
+  match filtered_path true true s t c q k b strat with
+  | FExact m => m = matching t c b (data (cget s c))
+  | FCachedOrExact snap m => snap = data (cget s c) /\ m = matching t c b (data (cget s c))
+  | FErr _ | FEmpty => True
+  | _ => False
+  end.
+Proof.
+  intros Hinv. unfold filtered_path. destruct q as [|x q]; [exact I|].
+  destruct (N.eqb k 0); [exact I|]. destruct (zero_query (x :: q)) eqn:Ez; [exact I|].
+  match goal with |- context [if N.eqb ?ch 1 then _ else _] => destruct (N.eqb ch 1) end; [reflexivity|].
+  pose proof (search_path_sound s c (x :: q) (3 * k) Hinv) as Hp.
+  destruct (search_path true s c (x :: q) (3 * k)) as [e| |snap|m d| ]; try exact I.
+  - destruct Hp as [Hs _]. split; [exact Hs|reflexivity].
+  - reflexivity.
+  - exact Hp.
+Qed.
+
+Lemma search_path_slot_id dg s c q k : search_path_slot dg (fun x => x) s c q k = search_path dg s c q k.
+Proof. reflexivity. Qed.
+
+(* known finding reserved-default-name: a named collection (here id 9) whose cache lookups land in the
+   default collection's slot is answered from the default collection's index *)
+Lemma reserved_name_refuted : AllInvalidate ->
+  let s := runm [] [OStore 0 0 [1065353216; 1065353216]; OBuild 0; OStore 9 7 [1073741824; 1065353216]] in
+  CacheInv s /\
+  exists snap, search_path_slot true (fun c => if N.eqb c 9 then 0 else c) s 9 [1065353216; 1065353216] 1 = PCached snap
+               /\ snap <> data (cget s 9).
+Proof.
+  intros Hall s. split; [apply cache_discipline; [exact Hall|apply CacheInv_init]|].
+  assert (H0 : inval 0 = true) by (apply Hall; cbn; tauto).
+  assert (H5 : inval 5 = true) by (apply Hall; cbn; tauto).
+  unfold s. cbn [run step fst]. unfold put_vec, cget, drop_cache, search_path_slot, M_STORE, M_COLL_STORE.
+  cbn [aget aset N.eqb data cache created empty_coll dims_consistent forallb].
+  rewrite ?H0, ?H5.
+  set (w := stored keep eps num den [1065353216; 1065353216]).
+  set (w9 := stored keep eps num den [1073741824; 1065353216]).
+  assert (Hl : length w = 2%nat).
+  { unfold w, stored. destruct (use_sparse _ _ _ _); [|reflexivity]. rewrite sparse_roundtrip. reflexivity. }
+  cbn. rewrite ?H0, ?H5. cbn. unfold same_dim. rewrite Hl. cbn.
+  eexists. split; [reflexivity|discriminate].
+Qed.
 End CacheProofs.
+
+(* ============================================================ E. HNSW layer search: safety facts
+   for every layer graph, distance table, heap discipline (pick functions) and fuel *)
+Section LayerProofs.
+Variable nbrs : nat -> list nat.
+Variable dist : nat -> N.
+Variable pick_min pick_max : list (nat * N) -> option ((nat * N) * list (nat * N)).
+Variable ef : nat.
+Variable n : nat.                                   (* number of nodes *)
+Hypothesis pick_min_perm : forall l x r, pick_min l = Some (x, r) -> Permutation l (x :: r).
+Hypothesis pick_max_perm : forall l x r, pick_max l = Some (x, r) -> Permutation l (x :: r).
+Hypothesis graph_wf : forall i j, (i < n)%nat -> In j (nbrs i) -> (j < n)%nat.
+
+Notation trim' := (trim pick_max ef).
+Notation explore' := (explore1 dist pick_max ef).
+Notation loop' := (layer_loop nbrs dist pick_min pick_max ef).
+
+(* every queued / kept entry is a visited, in-range node with its true distance; kept ids are distinct *)
+Definition LInv (vis : list nat) (cand res : list (nat * N)) : Prop :=
+  (forall i, In i vis -> (i < n)%nat) /\
+  (forall p, In p cand -> In (fst p) vis /\ snd p = dist (fst p)) /\
+  (forall p, In p res -> In (fst p) vis /\ snd p = dist (fst p)) /\
+  NoDup (map fst res).
+
+Lemma hmem_in i l : hmem i l = true <-> In i l.
+Proof.
+  unfold hmem. rewrite existsb_exists. split.
+  - intros [x [Hx E]]. apply Nat.eqb_eq in E. subst. exact Hx.
+  - intros H. exists i. split; [exact H|apply Nat.eqb_refl].
+Qed.
+
+Lemma trim_sub fuel : forall res,
+  (forall p, In p (trim' fuel res) -> In p res) /\ (NoDup (map fst res) -> NoDup (map fst (trim' fuel res))).
+Proof.
+  induction fuel as [|f IH]; intros res; cbn [trim]; [split; auto|].
+  destruct (Nat.ltb ef (length res)); [|split; auto].
+  destruct (pick_max res) as [[w r]|] eqn:E; [|split; auto].
+  pose proof (pick_max_perm _ _ _ E) as P. destruct (IH r) as [H1 H2]. split.
+  - intros p Hp. apply (Permutation_in _ (Permutation_sym P)). right. apply H1. exact Hp.
+  - intros Hnd. apply H2. apply (Permutation_map fst) in P. apply (Permutation_NoDup P) in Hnd.
+    cbn in Hnd. inversion Hnd; assumption.
+Qed.
+
+Lemma explore_inv i vis cand res j : (i < n)%nat -> In j (nbrs i) ->
+  LInv vis cand res ->
+  let '(vis', cand', res') := explore' (vis, cand, res) j in LInv vis' cand' res'.
+Proof.
+  intros Hi Hj (Hv & Hc & Hr & Hnd). unfold explore1.
+  destruct (hmem j vis) eqn:Em; [exact (conj Hv (conj Hc (conj Hr Hnd)))|].
+  assert (Hnv : ~ In j vis) by (intro H; apply hmem_in in H; congruence).
+  assert (Hjn : (j < n)%nat) by (eapply graph_wf; eassumption).
+  match goal with |- context [if ?b then _ else _] => destruct b end.
+  - destruct (trim_sub (S (length res)) ((j, dist j) :: res)) as [T1 T2].
+    repeat split.
+    + intros x [<-|Hx]; auto.
+    + destruct H as [<-|H]; cbn; [left; reflexivity|right; apply Hc; exact H].
+    + destruct H as [<-|H]; cbn; [reflexivity|apply Hc; exact H].
+    + apply T1 in H. destruct H as [<-|H]; cbn; [left; reflexivity|right; apply Hr; exact H].
+    + apply T1 in H. destruct H as [<-|H]; cbn; [reflexivity|apply Hr; exact H].
+    + apply T2. cbn. constructor; [|exact Hnd]. intros Hin. apply in_map_iff in Hin.
+      destruct Hin as [p [E Hp]]. apply Hr in Hp. destruct Hp as [Hp _]. rewrite E in Hp. contradiction.
+  - repeat split.
+    + intros x [<-|Hx]; auto.
+    + right. apply Hc. exact H.
+    + apply Hc. exact H.
+    + right. apply Hr. exact H.
+    + apply Hr. exact H.
+    + exact Hnd.
+Qed.
+
+Lemma explore_fold_inv i : forall js vis cand res, (i < n)%nat -> (forall j, In j js -> In j (nbrs i)) ->
+  LInv vis cand res ->
+  let '(vis', cand', res') := fold_left explore' js (vis, cand, res) in LInv vis' cand' res'.
+Proof.
+  induction js as [|j r IH]; intros vis cand res Hi Hsub H; cbn [fold_left]; [exact H|].
+  pose proof (explore_inv i vis cand res j Hi (Hsub j (or_introl eq_refl)) H) as H1.
+  destruct (explore' (vis, cand, res) j) as [[vis1 cand1] res1].
+  apply IH; [exact Hi|intros j' Hj'; apply Hsub; right; exact Hj'|exact H1].
+Qed.
+
+Lemma loop_inv fuel : forall vis cand res, LInv vis cand res ->
+  let r := loop' fuel vis cand res in
+  NoDup (map fst r) /\ forall p, In p r -> (fst p < n)%nat /\ snd p = dist (fst p).
+Proof.
+  induction fuel as [|f IH]; intros vis cand res H; cbn [layer_loop].
+  - destruct H as (Hv & _ & Hr & Hnd). split; [exact Hnd|]. intros p Hp. destruct (Hr p Hp). split; auto.
+  - assert (Hdone : NoDup (map fst res) /\ forall p, In p res -> (fst p < n)%nat /\ snd p = dist (fst p)).
+    { destruct H as (Hv & _ & Hr & Hnd). split; [exact Hnd|]. intros p Hp. destruct (Hr p Hp). split; auto. }
+    destruct (pick_min cand) as [[cur cand']|] eqn:E; [|exact Hdone].
+    match goal with |- context [if ?b then _ else _] => destruct b end; [exact Hdone|].
+    pose proof (pick_min_perm _ _ _ E) as P.
+    destruct H as (Hv & Hc & Hr & Hnd).
+    assert (Hcur : In (fst cur) vis /\ snd cur = dist (fst cur)).
+    { apply Hc. apply (Permutation_in _ (Permutation_sym P)). left. reflexivity. }
+    assert (H' : LInv vis cand' res).
+    { refine (conj Hv (conj _ (conj Hr Hnd))). intros p Hp. apply Hc.
+      apply (Permutation_in _ (Permutation_sym P)). right. exact Hp. }
+    pose proof (explore_fold_inv (fst cur) (nbrs (fst cur)) vis cand' res (Hv _ (proj1 Hcur)) (fun j Hj => Hj) H') as H2.
+    destruct (fold_left explore' (nbrs (fst cur)) (vis, cand', res)) as [[vis2 cand2] res2].
+    apply IH. exact H2.
+Qed.
+
+Lemma ins_asc_perm x l : Permutation (ins_asc x l) (x :: l).
+Proof.
+  induction l as [|y r IH]; cbn; [apply Permutation_refl|].
+  destruct (f_lt (snd y) (snd x)); [|apply Permutation_refl].
+  eapply Permutation_trans; [apply perm_skip; exact IH|apply perm_swap].
+Qed.
+Lemma sort_asc_perm l : Permutation (sort_asc l) l.
+Proof.
+  induction l as [|x r IH]; cbn; [constructor|].
+  eapply Permutation_trans; [apply ins_asc_perm|apply perm_skip; exact IH].
+Qed.
+
+(* search_layer, any fuel, any entry node in range: distinct node ids, all in range, each with
+   its true distance *)
+Theorem search_layer_safe fuel entry : (entry < n)%nat ->
+  let r := search_layer nbrs dist pick_min pick_max ef fuel entry in
+  NoDup (map fst r) /\ forall p, In p r -> (fst p < n)%nat /\ snd p = dist (fst p).
+Proof.
+  intros He r. unfold r, search_layer.
+  set (l := loop' fuel [entry] [(entry, dist entry)] [(entry, dist entry)]).
+  assert (H : NoDup (map fst l) /\ forall p, In p l -> (fst p < n)%nat /\ snd p = dist (fst p)).
+  { apply loop_inv. repeat split.
+    - intros i [<-|[]]. exact He.
+    - destruct H as [<-|[]]. left. reflexivity.
+    - destruct H as [<-|[]]. reflexivity.
+    - destruct H as [<-|[]]. left. reflexivity.
+    - destruct H as [<-|[]]. reflexivity.
+    - cbn. constructor; [intros []|constructor]. }
+  destruct H as [H1 H2]. pose proof (sort_asc_perm l) as P. split.
+  - apply (Permutation_NoDup (Permutation_sym (Permutation_map fst P))). exact H1.
+  - intros p Hp. apply H2. apply (Permutation_in _ P). exact Hp.
+Qed.
+
+(* greedy descent stays inside the graph *)
+Theorem greedy_in_range fuel : forall cur, (cur < n)%nat -> (greedy nbrs dist fuel cur < n)%nat.
+Proof.
+  induction fuel as [|f IH]; intros cur Hc; cbn [greedy]; [exact Hc|].
+  set (F := fun (acc : nat * N * bool) (j : nat) => let '(c, cd, ch) := acc in if f_lt (dist j) cd then (j, dist j, true) else acc).
+  assert (Hfold : forall js c cd ch, (c < n)%nat -> (forall j, In j js -> (j < n)%nat) ->
+            (fst (fst (fold_left F js (c, cd, ch))) < n)%nat).
+  { induction js as [|j r IHj]; intros c cd ch Hcn Hjs; cbn [fold_left]; [exact Hcn|].
+    unfold F at 2. destruct (f_lt (dist j) cd).
+    - apply IHj; [apply Hjs; left; reflexivity|intros j' Hj'; apply Hjs; right; exact Hj'].
+    - apply IHj; [exact Hcn|intros j' Hj'; apply Hjs; right; exact Hj']. }
+  specialize (Hfold (nbrs cur) cur (dist cur) false Hc (fun j Hj => graph_wf cur j Hc Hj)).
+  fold F. destruct (fold_left F (nbrs cur) (cur, dist cur, false)) as [[c' cd'] changed]. cbn in Hfold.
+  destruct changed; [apply IH; exact Hfold|exact Hc].
+Qed.
+
+(* what HNSWIndex::search hands to the engine: distinct node ids, each with the similarity of its
+   own distance -- the premise of cached_search_safe *)
+Theorem hnsw_hits_safe (to_sim : N -> N) fuel entry k : (entry < n)%nat ->
+  let h := hnsw_hits nbrs dist pick_min pick_max ef to_sim fuel entry k in
+  NoDup (map fst h) /\ forall i sc, In (i, sc) h -> (i < n)%nat /\ sc = to_sim (dist i).
+Proof.
+  intros He h. unfold h, hnsw_hits. destruct (search_layer_safe fuel entry He) as [H1 H2].
+  set (r := search_layer nbrs dist pick_min pick_max ef fuel entry) in *. split.
+  - rewrite map_map. cbn [fst]. rewrite <- firstn_map. apply nodup_firstn. exact H1.
+  - intros i sc Hin. apply in_map_iff in Hin. destruct Hin as [p [E Hp]]. injection E as <- <-.
+    apply in_firstn in Hp. destruct (H2 p Hp) as [Ha Hb]. split; [exact Ha|rewrite Hb; reflexivity].
+Qed.
+End LayerProofs.
+
+(* engine + index search composed: the cached branch of search_similar / search_in_collection over
+   ANY layer-0 graph of the index *)
+Theorem cached_path_safe (score : N -> vec -> vec -> N) q k (snap : list (N * vec))
+        nbrs dist pick_min pick_max ef to_sim fuel entry :
+  NoDup (map fst snap) ->
+  (forall l x r, pick_min l = Some (x, r) -> Permutation l (x :: r)) ->
+  (forall l x r, pick_max l = Some (x, r) -> Permutation l (x :: r)) ->
+  (forall i j, (i < length snap)%nat -> In j (nbrs i) -> (j < length snap)%nat) ->
+  (entry < length snap)%nat ->
+  (forall i kv, nth_error snap i = Some kv -> score 10 q (snd kv) = to_sim (dist i)) ->
+  (forall i, (i < length snap)%nat -> f_isnan (to_sim (dist i)) = false) ->
+  let r := search_cached (map fst snap) (hnsw_hits nbrs dist pick_min pick_max ef to_sim fuel entry k) k in
+  (length r <= k)%nat
+  /\ StronglySorted ge r
+  /\ NoDup (map fst r)
+  /\ forall key sc, In (key, sc) r -> exists v, In (key, v) snap /\ sc = score 10 q v.
+Proof.
+  intros Hnd Hpm Hpx Hwf He Htrue Hnn.
+  destruct (hnsw_hits_safe nbrs dist pick_min pick_max ef (length snap) Hpm Hpx Hwf to_sim fuel entry k He) as [H1 H2].
+  apply cached_search_safe; [exact Hnd|exact H1| |].
+  - intros i sc Hin kv Hkv. destruct (H2 i sc Hin) as [_ ->]. symmetry. apply Htrue. exact Hkv.
+  - intros i sc Hin. destruct (H2 i sc Hin) as [Hi ->]. apply Hnn. exact Hi.
+Qed.
